@@ -19,6 +19,7 @@ sys.path.insert(0, ROOT)
 PROPS = {
     # property -> list of contract modules (each: variants(world, tier) and optional extras(tier))
     "C01": ["contracts.c01_simplifier"],
+    "C02": ["contracts.c01_simplifier", "contracts.c02_model"],
     "C03": ["contracts.c03_typechecker", "contracts.c06_constructors"],
     "C06": ["contracts.c06_constructors"],
     "C12": ["contracts.c12_oracles"],
